@@ -1,4 +1,5 @@
 import TinyFlux.Audit.Tool
 import TinyFlux.Props.C16
 import TinyFlux.Props.C16EndToEnd
+import TinyFlux.Props.C16State
 #audit TinyFlux.Props.C16
